@@ -62,7 +62,7 @@ class Cells(dict):
 
 class Obj(object):
     __slots__ = ('id', 'kind', 'size', 'cells', 'default', 'live', 'heap', 'weak', 'site', 'ro', 'zeroed_n',
-                 'ptr_fields', 'name')
+                 'ptr_fields', 'name', 'epoch')
 
     def __init__(self, oid, kind, size, default='uninit', heap=False, weak=False, site=None, ro=False):
         self.id = oid
@@ -78,6 +78,8 @@ class Obj(object):
         self.zeroed_n = None      # term n of memset(p,0,n) covering the object from offset 0
         self.ptr_fields = None    # for summary/input objects: off -> tuple of possible pointer terms
         self.name = oid
+        self.epoch = ()           # stores since the last region was added: ((symkey, const), width) - region reads
+                                  # are named by how many of them may overlap the location read
 
     def copy(self):
         o = Obj.__new__(Obj)
@@ -87,6 +89,7 @@ class Obj(object):
         o.zeroed_n = self.zeroed_n
         o.ptr_fields = self.ptr_fields
         o.name = self.name
+        o.epoch = self.epoch
         return o
 
 
@@ -97,6 +100,7 @@ def split_off(lin):
 
 class State(object):
     _cc = None
+    input_dom = None      # optional: atom -> Dom, value ranges of typed input objects (an entry assumption)
 
     def __init__(self):
         self.objs = {}
@@ -129,6 +133,7 @@ class State(object):
         s._cc = None
         s._dc = None
         s._cm = None
+        s.input_dom = self.input_dom
         return s
 
     # ---- fresh names
@@ -366,7 +371,14 @@ class State(object):
             return Dom(t[1], t[1])
         e = self.env.get(t)
         if k == 'in':
-            return e if e is not None else BYTE
+            if e is not None:
+                return e
+            h = self.input_dom
+            if h is not None:
+                d = h(t)
+                if d is not None:
+                    return d
+            return BYTE
         if k == 'sym':
             d = Dom(t[2], t[3])
             return d.meet(e) if e is not None else d
